@@ -134,16 +134,31 @@ impl Sys {
             "deposit" | "mint" => {
                 let (recv, own, oper) = (nm("recv"), nm("own"), nm("oper"));
                 let assets: i128 = if kind == "deposit" { x } else if pv == BAD { 0 } else { pv as i128 };
-                let sub = if oper == own {
-                    Inv::new(&self.a, "transfer", args(e, (own.clone(), self.v.clone(), assets)))
-                } else {
-                    Inv::new(&self.a, "transfer_from", args(e, (oper.clone(), own.clone(), self.v.clone(), assets)))
-                };
-                let mut inv = Inv::new(&self.v, kind, args(e, (x, recv.clone(), own.clone(), oper.clone())));
-                if !nosub {
-                    inv = inv.with_subs(vec![sub]);
+                // The operator signs what a simulation of the call shows.  The harness cannot simulate without
+                // side effects, so it authorizes the nested asset movement for the previewed amount and its two
+                // neighbours: an operation that pulls a differently rounded amount than its preview then still
+                // runs, and is judged by the monitors (C05_round, C05_preview, C05_movement) instead of being
+                // masked by an authorization mismatch.
+                let mut trees: Vec<(Address, Inv)> = Vec::new();
+                for w in &who {
+                    for delta in [0i128, -1, 1] {
+                        let amt = assets + delta;
+                        if amt < 0 || (nosub && delta != 0) {
+                            continue;
+                        }
+                        let sub = if oper == own {
+                            Inv::new(&self.a, "transfer", args(e, (own.clone(), self.v.clone(), amt)))
+                        } else {
+                            Inv::new(&self.a, "transfer_from", args(e, (oper.clone(), own.clone(), self.v.clone(), amt)))
+                        };
+                        let mut inv = Inv::new(&self.v, kind, args(e, (x, recv.clone(), own.clone(), oper.clone())));
+                        if !nosub {
+                            inv = inv.with_subs(vec![sub]);
+                        }
+                        trees.push((w.clone(), inv));
+                    }
                 }
-                set_auth_same(e, &who, &inv);
+                set_auths(e, &trees);
                 let rr = if kind == "deposit" { vc.try_deposit(&x, &recv, &own, &oper) } else { vc.try_mint(&x, &recv, &own, &oper) };
                 if let Ok(Ok(v)) = &rr { ret = if v.abs() < (1 << 30) { *v as i64 } else { BAD }; }
                 res_of(&rr)
